@@ -62,21 +62,41 @@ def run(ctx):
     from bionumpy.arithmetics import intervals as iv_mod
     from bionumpy.arithmetics import get_pileup, get_boolean_mask, merge_intervals, sort_intervals, count_overlap, intersect, unique_intersect, jaccard, forbes
     from bionumpy.genomic_data.geometry import Geometry
+    from bnpmon.util import lazy_selection
     rng = ctx.rng
 
+    vrng = random.Random(ctx.seed * 977 + ctx.shard)
+    built = {}
+
     def table(ivs, chrom="chr1", strands=None):
-        starts = np.array([a for a, b in ivs], dtype=int)
-        stops = np.array([b for a, b in ivs], dtype=int)
-        if strands is None:
-            return Interval([chrom] * len(ivs), starts, stops)
-        return StrandedInterval([chrom] * len(ivs), starts, stops, list(strands))
+        def build(rows):
+            starts = np.array([r[0] for r in rows], dtype=int)
+            stops = np.array([r[1] for r in rows], dtype=int)
+            if strands is None:
+                return Interval([chrom] * len(rows), starts, stops)
+            return StrandedInterval([chrom] * len(rows), starts, stops, [r[2] for r in rows])
+        rows = [tuple(x) for x in ivs] if strands is None else [(a, b, st) for (a, b), st in zip(ivs, strands)]
+        if vrng.random() < 0.3:
+            # the operand is a lazy row selection of a bigger table (what a filter or a sort hands on), not a freshly built table
+            t, _ = lazy_selection(build, rows, vrng, lambda: (0, 1) if strands is None else (0, 1, "+"))
+            ctx.count("lazy_selection_operands")
+        else:
+            t = build(rows)
+        built[id(t)] = (t, ([r[0] for r in rows], [r[1] for r in rows], [chrom] * len(rows)))
+        if len(built) > 64:
+            built.pop(next(iter(built)))
+        return t
 
     def snap(t):
+        # the snapshot taken BEFORE an operation comes from the values the table was built from: reading the table would flatten a lazy selection
+        if id(t) in built and built[id(t)][0] is t and not getattr(snap, "after", False):
+            return built[id(t)][1]
         return (np.asarray(t.start).tolist(), np.asarray(t.stop).tolist(), t.chromosome.tolist())
 
     def unchanged(t, before, op, case):
-        if snap(t) != before:
-            ctx.violation("operand-mutated:%s" % op, "%s changed its operand" % op, dict(case, before=before, after=snap(t)))
+        now = (np.asarray(t.start).tolist(), np.asarray(t.stop).tolist(), t.chromosome.tolist())
+        if now != before:
+            ctx.violation("operand-mutated:%s" % op, "%s changed its operand" % op, dict(case, before=before, after=now))
 
     def single(case):
         S, ivs = case["S"], [tuple(x) for x in case["ivs"]]
